@@ -73,3 +73,76 @@ package semantic
 //@   loop 1.1 invariant forall a int :: 0 <= a && a < $i ==> funcOK(svc.Functions[a])
 //@   loop 1.1.1 invariant err == nil
 //@   loop 1.1.2 invariant err == nil
+
+// ---- name splitting (C05) ----
+
+//@ func SplitType(id string) []string
+//@   ensures id == "" ==> len(result) == 0
+//@   ensures id != "" && lastIndex(id, ".") == -1 ==> len(result) == 1 && result[0] == id
+//@   ensures lastIndex(id, ".") >= 0 ==> len(result) == 2 && result[0] == id[:lastIndex(id, ".")] && result[1] == id[lastIndex(id, ".")+1:]
+
+//@ func SplitValue(id string) (sss [][]string)
+//@   ensures id == "" ==> len(sss) == 0
+//@   ensures id != "" && lastIndex(id, ".") == -1 ==> len(sss) == 1 && len(sss[0]) == 1 && sss[0][0] == id
+//@   ensures lastIndex(id, ".") >= 0 ==> len(sss) >= 1 && len(sss[0]) == 2 && sss[0][0] == id[:lastIndex(id, ".")] && sss[0][1] == id[lastIndex(id, ".")+1:]
+//@   ensures lastIndex(id, ".") >= 0 && lastIndex(id[:lastIndex(id, ".")], ".") == -1 ==> len(sss) == 1
+//@   ensures lastIndex(id, ".") >= 0 && lastIndex(id[:lastIndex(id, ".")], ".") >= 0 ==> len(sss) == 2 && len(sss[1]) == 3 && sss[1][2] == id[lastIndex(id, ".")+1:] && sss[1][0] == id[:lastIndex(id, ".")][:lastIndex(id[:lastIndex(id, ".")], ".")] && sss[1][1] == id[:lastIndex(id, ".")][lastIndex(id[:lastIndex(id, ".")], ".")+1:]
+
+// ---- registration and resolution (C04, C05) ----
+
+//@ pure func wfResolver(r *resolver) bool { return r != nil && r.ast != nil && r.ast.Name2Category != nil && len(r.ast.Includes) <= 2147483647 && (forall i int :: 0 <= i && i < len(r.ast.Includes) ==> r.ast.Includes[i] != nil && r.ast.Includes[i].Reference != nil) }
+
+// Every Type node in the heap has the children its name requires (what parseFieldType/parseContainerType build).
+//@ pure func wfType1(x *parser.Type) bool { return (x.Name == "map" ==> x.KeyType != nil && x.ValueType != nil) && ((x.Name == "list" || x.Name == "set") ==> x.ValueType != nil) }
+//@ pure func wfTypes() bool { return forall x *parser.Type :: x != nil && allocated(x) ==> wfType1(x) }
+
+//@ pure func isBase(n string) bool { return n == "bool" || n == "byte" || n == "i8" || n == "i16" || n == "i32" || n == "i64" || n == "double" || n == "string" || n == "binary" }
+//@ pure func isContainer(n string) bool { return n == "map" || n == "list" || n == "set" }
+//@ pure func baseCat(n string) parser.Category { return ite(n == "bool", parser.Category_Bool, ite(n == "byte" || n == "i8", parser.Category_Byte, ite(n == "i16", parser.Category_I16, ite(n == "i32", parser.Category_I32, ite(n == "i64", parser.Category_I64, ite(n == "double", parser.Category_Double, ite(n == "string", parser.Category_String, ite(n == "binary", parser.Category_Binary, ite(n == "map", parser.Category_Map, ite(n == "list", parser.Category_List, parser.Category_Set)))))))))) }
+//@ pure func isTypeCat(c parser.Category) bool { return parser.Category_Enum <= c && c <= parser.Category_Typedef }
+
+//@ func (r *resolver) AddName(name string, category parser.Category) error
+//@   requires r != nil && r.ast != nil && r.ast.Name2Category != nil
+//@   ensures old(inDom(r.ast.Name2Category, name)) ==> result != nil && r.ast.Name2Category[name] == old(r.ast.Name2Category[name])
+//@   ensures !old(inDom(r.ast.Name2Category, name)) ==> result == nil && inDom(r.ast.Name2Category, name) && r.ast.Name2Category[name] == category
+//@   ensures forall n string :: n != name ==> inDom(r.ast.Name2Category, n) == old(inDom(r.ast.Name2Category, n)) && r.ast.Name2Category[n] == old(r.ast.Name2Category[n])
+//@   modifies contents(r.ast.Name2Category)
+
+//@ func (r *resolver) ResolveType(t *parser.Type) (err error)
+//@   requires wfResolver(r) && wfTypes() && t != nil
+//@   ensures err == nil && isBase(t.Name) ==> t.Category == baseCat(t.Name)
+//@   ensures err == nil && !isBase(t.Name) && !isContainer(t.Name) && lastIndex(t.Name, ".") == -1 ==> inDom(r.ast.Name2Category, t.Name) && isTypeCat(r.ast.Name2Category[t.Name]) && t.Category == r.ast.Name2Category[t.Name] && (t.Category == parser.Category_Typedef ==> t.IsTypedef != nil) && (t.Category != parser.Category_Typedef ==> t.IsTypedef == old(t.IsTypedef)) && t.Reference == old(t.Reference)
+//@   ensures err == nil && !isBase(t.Name) && !isContainer(t.Name) && lastIndex(t.Name, ".") >= 0 ==> t.Reference != nil
+//@   ensures err == nil && old(t.Reference) == nil && !isBase(t.Name) && !isContainer(t.Name) && lastIndex(t.Name, ".") >= 0 ==> 0 <= t.Reference.Index && t.Reference.Index < len(r.ast.Includes) && t.Reference.Name == t.Name[lastIndex(t.Name, ".")+1:] && IDLPrefix(r.ast.Includes[t.Reference.Index].Path) == t.Name[:lastIndex(t.Name, ".")] && inDom(r.ast.Includes[t.Reference.Index].Reference.Name2Category, t.Reference.Name) && t.Category == r.ast.Includes[t.Reference.Index].Reference.Name2Category[t.Reference.Name] && isTypeCat(t.Category) && r.ast.Includes[t.Reference.Index].Used != nil && (t.Category == parser.Category_Typedef ==> t.IsTypedef != nil)
+//@   ensures err == nil && old(t.Reference) == nil && !isBase(t.Name) && !isContainer(t.Name) && lastIndex(t.Name, ".") >= 0 ==> forall k int :: 0 <= k && k < t.Reference.Index ==> !(IDLPrefix(r.ast.Includes[k].Path) == t.Name[:lastIndex(t.Name, ".")] && inDom(r.ast.Includes[k].Reference.Name2Category, t.Name[lastIndex(t.Name, ".")+1:]) && isTypeCat(r.ast.Includes[k].Reference.Name2Category[t.Name[lastIndex(t.Name, ".")+1:]]))
+//@   ensures wfTypes()
+//@   modifies parser.Type.Category, parser.Type.IsTypedef, parser.Type.Reference, parser.Include.Used, r.typedefs
+//@   loop 1 invariant err == nil && t.Reference == old(t.Reference) && wfTypes() && wfResolver(r)
+//@   loop 1 invariant forall k int :: 0 <= k && k < $i ==> !(IDLPrefix(r.ast.Includes[k].Path) == tmp[0] && inDom(r.ast.Includes[k].Reference.Name2Category, tmp[1]) && isTypeCat(r.ast.Includes[k].Reference.Name2Category[tmp[1]]))
+
+//@ func (r *resolver) ResolveBaseService(v *parser.Service) error
+//@   requires wfResolver(r) && v != nil
+//@   ensures result == nil && v.Extends != "" && lastIndex(v.Extends, ".") == -1 ==> inDom(r.ast.Name2Category, v.Extends) && r.ast.Name2Category[v.Extends] == parser.Category_Service
+//@   ensures result == nil && lastIndex(v.Extends, ".") >= 0 ==> v.Reference != nil
+//@   ensures result == nil && old(v.Reference) == nil && lastIndex(v.Extends, ".") >= 0 ==> 0 <= v.Reference.Index && v.Reference.Index < len(r.ast.Includes) && v.Reference.Name == v.Extends[lastIndex(v.Extends, ".")+1:] && IDLPrefix(r.ast.Includes[v.Reference.Index].Path) == v.Extends[:lastIndex(v.Extends, ".")] && inDom(r.ast.Includes[v.Reference.Index].Reference.Name2Category, v.Reference.Name) && r.ast.Includes[v.Reference.Index].Reference.Name2Category[v.Reference.Name] == parser.Category_Service && r.ast.Includes[v.Reference.Index].Used != nil
+//@   modifies v.Reference, parser.Include.Used
+//@   loop 1 invariant v.Reference == old(v.Reference) && wfResolver(r)
+
+//@ func (r *resolver) ResolveTypedef(t *typedefPair) error
+//@   requires t != nil && t.AST != nil && t.Type != nil && forall i int :: 0 <= i && i < len(t.AST.Typedefs) ==> t.AST.Typedefs[i] != nil && t.AST.Typedefs[i].Type != nil
+//@   ensures result == nil ==> exists k int :: 0 <= k && k < len(t.AST.Typedefs) && t.AST.Typedefs[k].Alias == t.Name && (old(t.AST.Typedefs[k].Type.Category) != parser.Category_Typedef ==> t.Type.Category == old(t.AST.Typedefs[k].Type.Category))
+//@   ensures t.Type.Category == old(t.Type.Category) || t.Type.Category != parser.Category_Typedef
+//@   modifies t.Type.Category
+
+//@ pure func wfPairs(ps []*typedefPair) bool { return forall i int :: 0 <= i && i < len(ps) ==> ps[i] != nil && ps[i].AST != nil && ps[i].Type != nil && forall j int :: 0 <= j && j < len(ps[i].AST.Typedefs) ==> ps[i].AST.Typedefs[j] != nil && ps[i].AST.Typedefs[j].Type != nil }
+
+//@ func (r *resolver) ResolveTypedefs() error
+//@   requires r != nil && wfPairs(r.typedefs)
+//@   ensures result == nil ==> forall k int :: 0 <= k && k < len(r.typedefs) ==> r.typedefs[k].Type.Category != parser.Category_Typedef
+//@   modifies parser.Type.Category
+//@   loop 1 invariant cnt == len(tds) && wfPairs(tds) && wfPairs(r.typedefs)
+//@   loop 1 invariant forall k int :: 0 <= k && k < len(r.typedefs) ==> r.typedefs[k].Type.Category != parser.Category_Typedef || exists j int :: 0 <= j && j < len(tds) && tds[j].Type == r.typedefs[k].Type
+//@   loop 1 decreases cnt
+//@   loop 1.1 invariant len(tmp) <= $i && wfPairs(tmp) && wfPairs(tds) && wfPairs(r.typedefs) && cnt == len(tds)
+//@   loop 1.1 invariant forall k int :: 0 <= k && k < len(r.typedefs) ==> r.typedefs[k].Type.Category != parser.Category_Typedef || (exists j int :: 0 <= j && j < len(tmp) && tmp[j].Type == r.typedefs[k].Type) || (exists j int :: $i <= j && j < len(tds) && tds[j].Type == r.typedefs[k].Type)
+//@   loop 1.2 invariant wfPairs(tmp)
